@@ -318,6 +318,31 @@ func (e *Engine) buildPkgInferenceMap(triggers []annotation.FullTrigger) {
 	}
 	e.controlledTriggersBySite = controlledTgsBySite
 
+	// A controlling site may have already been determined to be nilable before the triggers of
+	// this package are observed (e.g., by an explicit call-site annotation). No further
+	// determination will happen for such a site, so the triggers it controls must be activated
+	// right away; otherwise they would be silently dropped.
+	var activated []primitiveSite
+	for _, trigger := range triggers {
+		if !trigger.Controlled() {
+			continue
+		}
+		site := e.primitive.site(trigger.Controller, false)
+		if slices.Contains(activated, site) {
+			continue
+		}
+		if val, ok := e.inferredMap.Load(site); ok {
+			if v, ok := val.(*DeterminedVal); ok && v.Bool.Val() {
+				activated = append(activated, site)
+			}
+		}
+	}
+	for _, site := range activated {
+		for _, tg := range controlledTgsBySite[site] {
+			e.buildFromSingleFullTrigger(tg)
+		}
+	}
+
 	for _, trigger := range triggers {
 		// As the initial status, the controlled triggers are skipped and NilAway just pretends not
 		// to see them. Those controlled triggers will be activated and encoded into the inference
